@@ -51,6 +51,22 @@ U("setopt_int_abstract", harness="harness/setopt_num.c", entry="h_setopt_int_abs
   trusted=["strtol: assumed contract C11 7.22.1.4 (arbitrary value / end offset / range error; errno written only on range error)"],
   replay="replay/setopt_int_range.c", cost=10)
 
+# ------------------------------------------------------------------ value store (C09 C10 C07 C18 C15)
+STORE = dict(harness="harness/store.c", defs={"quick": ["-DNV=2"], "thorough": ["-DNV=3"]})
+LEAK = ["--memory-leak-check"]
+U("opt_getval", entry="h_opt_getval", func="cfg_opt_getval", cbmc=unw(6) + OOM, remove=["cfg_free"], carriers=["carriers/cfg_free.c"],
+  label="bounded(shape: <= 2 values quick, 3 thorough; every flag word, index, well-formed state)", props=["C09", "C10", "C18", "C07", "C02"], cost=20, **STORE)
+U("opt_setnint", entry="h_opt_setnint", func="cfg_opt_setnint", cbmc=unw(6) + OOM, remove=["cfg_free"], carriers=["carriers/cfg_free.c"],
+  label="bounded(shape: <= 2 values quick, 3 thorough)", props=["C09", "C10", "C18", "C07", "C02"], cost=20, **STORE)
+U("opt_setnfloat_bool", entry="h_opt_setnfloat_bool", func="cfg_opt_setnfloat, cfg_opt_setnbool", cbmc=unw(6) + OOM, remove=["cfg_free"], carriers=["carriers/cfg_free.c"],
+  label="bounded(shape: <= 2 values quick, 3 thorough)", props=["C09", "C10", "C18", "C07", "C02"], cost=20, **STORE)
+U("opt_setnstr", entry="h_opt_setnstr", func="cfg_opt_setnstr", cbmc=unw(6) + OOM, remove=["cfg_free"], carriers=["carriers/cfg_free.c"],
+  label="bounded(shape: <= 2 values quick, 3 thorough; strings <= 2 bytes)", props=["C09", "C10", "C18", "C07", "C16", "C02"], cost=30, **STORE)
+U("opt_setcomment", entry="h_opt_setcomment", func="cfg_opt_setcomment", cbmc=unw(6) + OOM + LEAK, remove=["cfg_free"], carriers=["carriers/cfg_free.c"],
+  label="bounded(annotation <= 2 bytes)", props=["C15", "C18", "C07", "C16", "C02"], cost=10, **STORE)
+U("free_value", entry="h_free_value", func="cfg_free_value", cbmc=unw(6) + LEAK, remove=["cfg_free"], carriers=["carriers/cfg_free.c"],
+  label="bounded(shape: <= 2 values quick, 3 thorough; every type, flag word, callback presence)", props=["C07", "C02"], cost=20, **STORE)
+
 # ------------------------------------------------------------------ per-property text for MANIFEST / evidence
 HOOK_COMMITS = []
 NOT_APPLICABLE = {}
